@@ -468,6 +468,9 @@ def run(ctx, rep):
     C02.rice_escape_rules(F, ok, rep, "C01")
     C17.fold_rules(F, rep, "C01")
     C17.decoder_depth_rules(F, ok, rep, "C01")
+    C17.decoder_shift_rules(F, ok, rep, "C01")
+    from rules import C08
+    C08.protocol(ctx, rep, "C01.front")
 
     # ---- C01.fixed: the encoder's fixed-predictor residuals are iterated differences next - previous ---------------
     fx = anchor(F, rep, "C01.fixed", "encode::encode_fixed_subframe")
@@ -622,5 +625,7 @@ def run(ctx, rep):
     C09.carve_rules(F, ok, rep, "C01")
 
     # ---- C01.cache / C01.panic -------------------------------------------------------------------------------------------
+    from rules import castlib
+    rep.floor("C01.cast", "narrowing casts inspected", castlib.cast_audit(ctx, rep, "C01", ["encode.rs", "decode.rs", "audio.rs", "byteorder.rs"]), 20)
     cachelib.cache_rules(ctx, rep, "C01")
     auditlib.panic_audit(ctx, rep, "C01", ["G_enc"], floor_sites=260)
